@@ -1,4 +1,5 @@
 import GA.M.Guards
+import GA.Generated.Facts
 import GA.Proofs.Within
 /-
   C02 — plain extraction refuses every lexically escaping entry.
@@ -199,5 +200,17 @@ theorem fixed_guards_refuse_witnesses :
 /-- non-vacuity: a cleaned absolute destination exists -/
 example : CleanAbs b!"/a/dest" :=
   ⟨[b!"a", b!"dest"], by intro c hc; simp at hc; rcases hc with rfl | rfl <;> simp [Norm, dot, dotdot], by decide⟩
+
+
+/-- in the loops of `Unpack` and `UnpackLayer` the breakout decision on the entry's name comes, in the source,
+    before the first call that touches the file system on the entry's behalf (implied parents, `lstat`,
+    removal, creation) — regenerated on every run; the models place the guard there, and
+    `C05.escaping_name_no_effect(_layer)` is what that order buys.  (In `UnpackLayer` the staging of
+    `.wh..wh.plnk` files comes first: their names are reserved and they are written under a directory the
+    extractor names itself.) -/
+theorem guard_precedes_effects :
+    Facts.unpackOrder = ["guard", "implied", "lstat", "remove", "remap", "create"] ∧
+    Facts.unpackLayerOrder.filter (fun x => x = "guard" ∨ x = "implied" ∨ x = "lstat") = ["guard", "implied", "lstat"] := by
+  decide
 
 end GA.C02
